@@ -193,6 +193,7 @@ type multiStreamListener struct {
 	ln          StreamListener
 	count       uint32
 	acceptCh    chan acceptResponse
+	doneCh      chan struct{}
 	onCloseFunc OnCloseFunc
 }
 
@@ -219,6 +220,8 @@ func (m *multiStreamListener) Acquire() (StreamListener, error) {
 		}
 		m.ln = &TCPListener{ln}
 		m.acceptCh = make(chan acceptResponse)
+		m.doneCh = make(chan struct{})
+		acceptCh, doneCh := m.acceptCh, m.doneCh
 		go func() {
 			for {
 				m.mu.Lock()
@@ -230,10 +233,18 @@ func (m *multiStreamListener) Acquire() (StreamListener, error) {
 				}
 				conn, err := ln.AcceptStream()
 				if errors.Is(err, net.ErrClosed) {
-					close(m.acceptCh)
+					close(acceptCh)
 					return
 				}
-				m.acceptCh <- acceptResponse{conn, err}
+				select {
+				case acceptCh <- acceptResponse{conn, err}:
+				case <-doneCh:
+					// The last listener was closed: nobody will ever accept this connection.
+					if conn != nil {
+						conn.Close()
+					}
+					return
+				}
 			}
 		}()
 	}
@@ -248,6 +259,7 @@ func (m *multiStreamListener) Acquire() (StreamListener, error) {
 			defer m.mu.Unlock()
 			m.count--
 			if m.count == 0 {
+				close(m.doneCh)
 				m.ln.Close()
 				m.ln = nil
 				if m.onCloseFunc != nil {
